@@ -325,15 +325,15 @@ Proof.
   intros Hn Hf Hu Hne. apply (gbase_from_item (u_item nm bl) (u_x nm bl) (b_union nm bl) (u_item_ok nm bl Hn Hf Hu Hne)); try reflexivity.
   assert (Hne' : map bub bl <> []) by (destruct bl; [congruence|discriminate]).
   intros cm opc g f tail c _. cbn [b_union gb_need gb_toks gb_upd u_item it_need it_toks].
-  exists (usum (map bub bl) + S g). split; [lia|].
+  exists (usum (map bub bl) + S (S g)). split; [lia|].
   replace (usum (map bub bl) + 4 + g) with (S (usum (map bub bl) + S (S (S g)))) by lia. unfold union_toks.
   change ([unionT; idT (ibytes nm); openT; nlT] ++ ubs_toks (map bub bl) ++ [closeT; nlT])
     with ([unionT] ++ ([idT (ibytes nm); openT; nlT] ++ ubs_toks (map bub bl) ++ [closeT] ++ [nlT])).
   rewrite res_app, top_union_head_gen. unfold bind.
   replace ([idT (ibytes nm); openT; nlT] ++ ubs_toks (map bub bl) ++ [closeT] ++ [nlT])
     with (([idT (ibytes nm); openT; nlT] ++ ubs_toks (map bub bl) ++ [closeT]) ++ [nlT]) by (rewrite <- !app_assoc; reflexivity).
-  rewrite res_app, (read_union_ok (ibytes nm) (map bub bl) (S (S g)) _ _ Hu Hne'). cbn [un_name un_fields union_of].
-  replace (usum (map bub bl) + S (S (S g))) with (S (S (usum (map bub bl) + S g))) by lia. rewrite top_after_union. reflexivity.
+  rewrite res_app, (read_union_ok (ibytes nm) (map bub bl) (S g) _ _ Hu Hne'). cbn [un_name un_fields union_of].
+  replace (usum (map bub bl) + S (S (S g))) with (S (usum (map bub bl) + S (S g))) by lia. rewrite top_newline. reflexivity.
 Qed.
 
 (* enums take no opcode: the pending opcode must be 0 (no opcode line in front) *)
